@@ -257,21 +257,22 @@ def intDigits : List Char → Option (List Nat)
     `PYTHONINTMAXSTRDIGITS` (CPython >= 3.11, and the security releases of 3.7-3.10) -/
 def intMaxStrDigits : Nat := 4300
 
-/-- `int(s)` for a `str` (base 10): optional blanks, an optional sign `+` / `-`, decimal digits (ASCII or any Unicode
-    Nd character) with single underscores allowed between digits, optional blanks; `ValueError` otherwise, and
-    `ValueError` when there are more than `intMaxStrDigits` digits (underscores and sign not counted). -/
-def intOfStr (s : Str) : Except Exc Int :=
-  let t := ((s.dropWhile intIsSpace).reverse.dropWhile intIsSpace).reverse
-  let (neg, body) := match t with
-    | '-' :: r => (true, r)
-    | '+' :: r => (false, r)
-    | r => (false, r)
+/-- the digits of `int(s)` after blanks and sign are removed; `neg`: a `-` was read -/
+def intOfBody (neg : Bool) (body : Str) : Except Exc Int :=
   match intDigits body with
   | none => .error .valueError
   | some ds =>
     if ds.length > intMaxStrDigits then .error .valueError
-    else
-      let n : Nat := ds.foldl (fun a d => 10 * a + d) 0
-      .ok (if neg then -(n : Int) else (n : Int))
+    else .ok (if neg then -((ds.foldl (fun a d => 10 * a + d) 0 : Nat) : Int)
+              else ((ds.foldl (fun a d => 10 * a + d) 0 : Nat) : Int))
+
+/-- `int(s)` for a `str` (base 10): optional blanks, an optional sign `+` / `-`, decimal digits (ASCII or any Unicode
+    Nd character) with single underscores allowed between digits, optional blanks; `ValueError` otherwise, and
+    `ValueError` when there are more than `intMaxStrDigits` digits (underscores and sign not counted). -/
+def intOfStr (s : Str) : Except Exc Int :=
+  match ((s.dropWhile intIsSpace).reverse.dropWhile intIsSpace).reverse with
+  | '-' :: r => intOfBody true r
+  | '+' :: r => intOfBody false r
+  | r => intOfBody false r
 
 end Py
